@@ -39,6 +39,14 @@ func checkC16(c *Ctx, r *Report) {
 	}
 	requireFixture(r, "G-NILMAP", "nilMapUpdate", func(fc *Ctx, s *Report) { ruleNilMapUpdate(fc, s, nil) })
 	ruleG3X(c, r, scope)
+	if n := ruleLoopProgress(c, r, func(f *ssa.Function) bool { return scope[f] }); n < 8 {
+		r.Undecided("L-PROGRESS", "scope", "", fmt.Sprintf("only %d cursor loops without an external reader found in the codec helpers", n))
+	}
+	requireFixture(r, "L-PROGRESS", "walkStuck", func(fc *Ctx, s *Report) { ruleLoopProgress(fc, s, nil) })
+	if n := ruleNilFieldIndexed(c, r, "G-NILFIELD", func(f *ssa.Function) bool { return scope[f] }); n < 3 {
+		r.Undecided("G-NILFIELD", "scope", "", fmt.Sprintf("only %d slice fields of objects a codec helper creates are indexed", n))
+	}
+	requireFixture(r, "G-NILFIELD", "nilFieldRec", func(fc *Ctx, s *Report) { ruleNilFieldIndexed(fc, s, "G-NILFIELD", nil) })
 	ruleNegConv(c, r, func(f *ssa.Function) bool { return scope[f] || strings.HasPrefix(SSAFuncName(f), "mp4.") })
 	requireFixture(r, "L-NEGCONV", "lastStartWrong", func(fc *Ctx, s *Report) { ruleNegConv(fc, s, nil) })
 	if n := ruleG3D(c, r, func(f *ssa.Function) bool { return scope[f] }); n < 4 {
